@@ -3,7 +3,9 @@
 //! `f!(e1, e2,)` in the macro version, `hand(e1, e2, <captures in written order>)` in the hand version),
 //! and a driver per shape that calls both in the same way.  Families: body templates A-D (fixed argument
 //! types), T (argument TYPE classes), E (argument EXPRESSION classes whose type only the parameter fixes),
-//! N (identifier collisions: which names the recursion, the arguments, the locals and the closure carry).  The shapes of a run are spread over several
+//! N (identifier collisions: which names the recursion, the arguments, the locals and the closure carry), K (classes
+//! of DECLARED CAPTURE TYPES), X (execution environments: deep recursion on a big caller stack, several threads, a
+//! moved closure, a lambda inside a lambda - run in child processes).  The shapes of a run are spread over several
 //! library crates (compiled at the same time) that one binary links and runs.
 
 use serde::{Deserialize, Serialize};
@@ -28,7 +30,9 @@ pub struct Shape {
     /// 'E' arguments whose type only the PARAMETER fixes (classes in `exprs`): the recursive calls pass
     /// literal-only integer / float expressions and expressions that need the expected type to infer;
     /// 'N' identifier collisions (scheme in `naming`): two recursive calls in a loop and one after it, with a
-    /// local, a loop variable and calls of `max`, `drop`, `Some` by their plain names in scope
+    /// local, a loop variable and calls of `max`, `drop`, `Some` by their plain names in scope;
+    /// 'K' the body of 'A' over captures whose declared types come from the classes in `captypes`;
+    /// 'X' a path (one recursive call per activation) driven in the execution environment `env`
     pub body: char,
     /// body template 'T' only: the type class of every argument, one letter per argument —
     /// I `i64`, B `bool`, S `&[i64]` (shared slice), M `&mut Vec<i64>` (a mutable reference passed as an
@@ -44,6 +48,14 @@ pub struct Shape {
     /// bound to `lam`).
     #[serde(default, skip_serializing_if = "String::is_empty")]
     pub naming: String,
+    /// body template 'K' only: the class (see `cclasses`) of the DECLARED TYPE of every capture, by name, in
+    /// written order; the kind (`&` / `&mut`) of the capture is in `caps`.  Empty for the other templates
+    /// (shared captures i64 / Vec<i64>, mutable ones Vec<i64> / i64).
+    #[serde(default, skip_serializing_if = "Vec::is_empty")]
+    pub captypes: Vec<String>,
+    /// body template 'X' only: the execution environment the driver calls the closure in (see `ENVS`).
+    #[serde(default, skip_serializing_if = "String::is_empty")]
+    pub env: String,
 }
 
 /// The identifier of the helper fn that the macro defines next to the user's body (read off
@@ -89,6 +101,10 @@ impl Shape {
             format!("/exprs={}", self.exprs.join(","))
         } else if !self.naming.is_empty() {
             format!("/names={}", self.naming)
+        } else if !self.captypes.is_empty() {
+            format!("/captypes={}", self.captypes.join(","))
+        } else if !self.env.is_empty() {
+            format!("/env={}", self.env)
         } else {
             String::new()
         };
@@ -107,7 +123,7 @@ impl Shape {
     }
     /// Nothing but termination can be observed: no return value and no mutable capture.
     pub fn trivially_observable(&self) -> bool {
-        !self.ret && self.n_mut() == 0 && !self.types.contains('M')
+        !self.ret && self.n_mut() == 0 && !self.types.contains('M') && !(0..self.captypes.len()).any(|p| self.cclass(p).interior)
     }
     /// Type class of argument k (0-based); the fixed types of the templates A-D count as by-value classes.
     pub fn class(&self, k: usize) -> char {
@@ -137,11 +153,24 @@ impl Shape {
     /// Which grid of driver tuples the shape is run on: its argument count, or 0 = the grid of template E
     /// (only the first component of a tuple enters the values the driver passes).
     pub fn grid_arity(&self) -> usize {
+        match self.body {
+            'E' => 0,
+            'X' if self.env == "deep" => GRID_DEEP,
+            'X' => GRID_ENV,
+            _ => self.nargs,
+        }
+    }
+    /// How many components of a driver tuple the shape uses (for messages and signatures).
+    pub fn tuple_arity(&self) -> usize {
         if self.body == 'E' {
-            0
+            1
         } else {
             self.nargs
         }
+    }
+    /// The driver runs every call of this shape in a child process of its own (see `main_source`).
+    pub fn isolated(&self) -> bool {
+        self.body == 'X'
     }
     /// The identifiers the naming scheme gives to the recursion, the arguments, the body's local and loop
     /// variable and the variable the closure is bound to.  Schemes: `rec:arg<k>` / `rec:cap<p>` / `rec:local` /
@@ -231,8 +260,14 @@ impl Shape {
             k % 2 == 1
         }
     }
+    /// The class of the declared type of capture p (body template 'K').
+    pub fn cclass(&self, p: usize) -> &'static CClass {
+        cclass(self.caps[p], &self.captypes[p])
+    }
     fn cap_type(&self, p: usize) -> &'static str {
-        if self.cap_is_vec(p) {
+        if !self.captypes.is_empty() {
+            self.cclass(p).ty
+        } else if self.cap_is_vec(p) {
             "Vec<i64>"
         } else {
             "i64"
@@ -614,11 +649,372 @@ pub fn enumerate_named(thorough: bool) -> Vec<Shape> {
     v
 }
 
+/// A class of DECLARED CAPTURE TYPES (body template 'K'): the type written after `&` / `&mut` in the capture
+/// list, which the hand-written fn takes as the type of the corresponding parameter.  Placeholders in the texts:
+/// `{n}` the capture's name, `{p}` its written position, `{e}` an i64 expression, `{acc}` the body's accumulator.
+#[derive(Clone, Debug)]
+pub struct CClass {
+    pub name: &'static str,
+    /// the kind of capture the class is for: true = `&mut`, false = `&`
+    pub mutable: bool,
+    /// what the class stands for: plain data, generic container, unsized (slice / str), `impl Trait`, `dyn Trait`,
+    /// references / lifetimes inside the type, tuple / array / fn pointer, not Send / Sync, `Box<dyn FnMut>`,
+    /// another recursive lambda
+    pub group: &'static str,
+    /// the declared type (without the reference)
+    pub ty: &'static str,
+    /// statements of the driver that declare the captured variable `{n}` and what it refers to
+    pub setup: &'static str,
+    /// the same for the hand-written version where it differs (a captured lambda becomes a closure around a fn)
+    pub setup_hand: &'static str,
+    /// items next to the hand-written fn that `setup_hand` needs
+    pub items: &'static str,
+    /// the use in the body: for a shared capture an i64 expression (over `key`), for a mutable one statements
+    /// that change what the capture refers to with the value `{e}` (and may add to `{acc}`)
+    pub uses: &'static str,
+    /// the expression the driver renders after the last call ("" = the capture holds nothing that can change)
+    pub show: &'static str,
+    /// a shared capture that is mutated through (Cell, RefCell): state is observable without `&mut`
+    pub interior: bool,
+}
+
+const fn cc(name: &'static str, mutable: bool, group: &'static str, ty: &'static str, setup: &'static str, uses: &'static str, show: &'static str) -> CClass {
+    CClass { name, mutable, group, ty, setup, setup_hand: "", items: "", uses, show, interior: false }
+}
+
+const FN_CLOSURE: &str = "let base{p}: Vec<i64> = vec![{p} + 2, 11, 5];\nlet {n} = |x: i64| base{p}[x.rem_euclid(3) as usize].wrapping_add(x);";
+const SLICE_USE: &str = "{n}[key.rem_euclid({n}.len() as i64) as usize]";
+const STR_USE: &str = "({n}.len() as i64) ^ ({n}.as_bytes()[0] as i64)";
+const ITER_USE: &str = "{acc} = {acc}.wrapping_add({n}.next().unwrap_or(-1));";
+const MAP: &str = "std::collections::BTreeMap<i64, Vec<i64>>";
+
+/// The classes for shared captures, then those for mutable ones.
+static CCLASSES: &[CClass] = &[
+    // ---- shared ----
+    cc("i64", false, "plain", "i64", "let {n}: i64 = 100 + 7 * {p};", "*{n}", "&{n}"),
+    cc("string", false, "plain", "String", "let {n}: String = \"ab\".repeat({p} + 1);", STR_USE, "&{n}"),
+    cc("tuple", false, "tuple_array_fnptr", "(i64, u8)", "let {n}: (i64, u8) = (50 + {p}, 7);", "{n}.0.wrapping_add({n}.1 as i64)", "&{n}"),
+    cc("array", false, "tuple_array_fnptr", "[i64; 3]", "let {n}: [i64; 3] = [{p}, 4, 9];", "{n}[key.rem_euclid(3) as usize]", "&{n}"),
+    cc("fnptr", false, "tuple_array_fnptr", "fn(i64) -> i64", "let {n}: fn(i64) -> i64 = i64::wrapping_neg;", "{n}(key)", ""),
+    cc("vecvec", false, "container", "Vec<Vec<i64>>", "let {n}: Vec<Vec<i64>> = vec![vec![{p}, 2], vec![3]];", "{n}[key.rem_euclid(2) as usize][0]", "&{n}"),
+    cc("map", false, "container", MAP, "let {n}: std::collections::BTreeMap<i64, Vec<i64>> = (0..3).map(|k| (k, vec![k + {p}, 1])).collect();", "{n}.get(&key.rem_euclid(4)).map_or(-1, |v| v[0])", "&{n}"),
+    cc("optbox", false, "container", "Option<Box<i64>>", "let {n}: Option<Box<i64>> = Some(Box::new(40 + {p}));", "{n}.as_deref().copied().unwrap_or(-5)", "&{n}"),
+    cc("slice", false, "unsized", "[i64]", "let {n}: Vec<i64> = vec![{p} + 1, 2 * {p} + 3, 5];", SLICE_USE, "&{n}"),
+    cc("slice_ref", false, "unsized", "[i64]", "let back{p}: Vec<i64> = vec![9, {p} + 1, 7, 5];\nlet {n}: &[i64] = &back{p}[1..];", SLICE_USE, "&{n}"),
+    cc("str", false, "unsized", "str", "let {n}: String = \"xyz\".repeat({p} + 1);", STR_USE, "&{n}"),
+    cc("str_lit", false, "unsized", "str", "let {n}: &'static str = \"hello\";", STR_USE, "&{n}"),
+    cc("impl_fn", false, "impl_trait", "impl Fn(i64) -> i64", FN_CLOSURE, "{n}(key)", ""),
+    cc(
+        "impl_fn2",
+        false,
+        "impl_trait",
+        "impl Fn(usize, usize) -> u64",
+        "let pref{p}: Vec<u64> = vec![0, 3, 4, 8, 9 + {p}];\nlet {n} = |l: usize, r: usize| pref{p}[r] - pref{p}[l];",
+        "{n}(key.rem_euclid(2) as usize, 2 + key.rem_euclid(3) as usize) as i64",
+        "",
+    ),
+    cc(
+        "impl_display",
+        false,
+        "impl_trait",
+        "impl std::fmt::Display",
+        "let {n}: i64 = 12345 + {p};",
+        "format!(\"{}\", {n}).bytes().fold(0i64, |h, b| h.wrapping_mul(31).wrapping_add(b as i64))",
+        "&{n}",
+    ),
+    cc("impl_asref", false, "impl_trait", "impl AsRef<[i64]>", "let {n}: Vec<i64> = vec![{p} + 4, 6];", "{n}.as_ref()[key.rem_euclid(2) as usize]", "&{n}"),
+    cc("dyn_fn", false, "dyn_trait", "dyn Fn(i64) -> i64", FN_CLOSURE, "{n}(key)", ""),
+    cc(
+        "dyn_fn_boxed",
+        false,
+        "dyn_trait",
+        "dyn Fn(i64) -> i64",
+        "let {n}: Box<dyn Fn(i64) -> i64> = Box::new(move |x: i64| x.wrapping_mul(3).wrapping_add({p}));",
+        "{n}(key)",
+        "",
+    ),
+    cc("dyn_debug", false, "dyn_trait", "dyn std::fmt::Debug", "let {n}: (i64, &str) = ({p}, \"q\");", "format!(\"{:?}\", {n}).len() as i64", "&{n}"),
+    cc(
+        "vec_str",
+        false,
+        "lifetimes",
+        "Vec<&str>",
+        "let text{p}: String = \"ab cde f\".to_string();\nlet {n}: Vec<&str> = text{p}.split(' ').collect();",
+        "{n}[key.rem_euclid(3) as usize].len() as i64",
+        "&{n}",
+    ),
+    cc("slice_static_str", false, "lifetimes", "[&'static str]", "let {n}: [&'static str; 2] = [\"a\", \"bcd\"];", "{n}[key.rem_euclid(2) as usize].len() as i64", "&{n}"),
+    cc("opt_ref", false, "lifetimes", "Option<&i64>", "let back{p}: i64 = 77 + {p};\nlet {n}: Option<&i64> = Some(&back{p});", "{n}.copied().unwrap_or(0)", "&{n}"),
+    cc(
+        "tuple_refs",
+        false,
+        "lifetimes",
+        "(&str, &[i64])",
+        "let back{p}: Vec<i64> = vec![{p}, 6];\nlet {n}: (&str, &[i64]) = (\"pq\", &back{p});",
+        "({n}.0.len() as i64).wrapping_add({n}.1[0])",
+        "&{n}",
+    ),
+    cc(
+        "rc",
+        false,
+        "not_send_sync",
+        "std::rc::Rc<Vec<i64>>",
+        "let {n}: std::rc::Rc<Vec<i64>> = std::rc::Rc::new(vec![{p}, 8]);",
+        "{n}[key.rem_euclid(2) as usize].wrapping_add(std::rc::Rc::strong_count({n}) as i64)",
+        "&{n}",
+    ),
+    CClass {
+        interior: true,
+        ..cc(
+            "cell",
+            false,
+            "not_send_sync",
+            "std::cell::Cell<i64>",
+            "let {n}: std::cell::Cell<i64> = std::cell::Cell::new({p});",
+            "{ {n}.set({n}.get().wrapping_mul(3).wrapping_add(key)); {n}.get() }",
+            "{n}.get()",
+        )
+    },
+    CClass {
+        interior: true,
+        ..cc(
+            "refcell",
+            false,
+            "not_send_sync",
+            "std::cell::RefCell<Vec<i64>>",
+            "let {n}: std::cell::RefCell<Vec<i64>> = std::cell::RefCell::new(vec![{p}]);",
+            "{ {n}.borrow_mut().push(key); {n}.borrow().len() as i64 }",
+            "&{n}",
+        )
+    },
+    // re-entrant use: the capture is itself a recursive lambda (the hand-written version captures a closure around a fn)
+    CClass {
+        setup_hand: "let tab{p}: Vec<i64> = vec![{p} + 1, 4, 6];\nlet {n} = |b1: i64| inner_shared(b1, &tab{p});",
+        items: "fn inner_shared(b1: i64, tab: &Vec<i64>) -> i64 {\n    if b1 <= 0 {\n        return tab[0];\n    }\n    inner_shared(b1 - 1, tab).wrapping_mul(3).wrapping_add(tab[b1 as usize % 3])\n}\n",
+        ..cc(
+            "lambda",
+            false,
+            "lambda",
+            "impl Fn(i64) -> i64",
+            "let tab{p}: Vec<i64> = vec![{p} + 1, 4, 6];\nlet {n} = rec_lambda!(g, |tab{p}: &Vec<i64>| {\n    |b1: i64| -> i64 {\n        if b1 <= 0 {\n            return tab{p}[0];\n        }\n        g!(b1 - 1).wrapping_mul(3).wrapping_add(tab{p}[b1 as usize % 3])\n    }\n});",
+            "{n}(key.rem_euclid(4))",
+            "",
+        )
+    },
+    // ---- mutable ----
+    cc("vec", true, "container", "Vec<i64>", "let mut {n}: Vec<i64> = vec![1000 + {p}];", "{n}.push(({e}).wrapping_add({p}));", "&{n}"),
+    cc("i64", true, "plain", "i64", "let mut {n}: i64 = 10 * {p} + 1;", "*{n} = {n}.wrapping_mul(5).wrapping_add({e}).wrapping_add({p});", "&{n}"),
+    cc("string", true, "plain", "String", "let mut {n}: String = String::from(\"s\");", "{n}.push(char::from(b'a' + ({e}).rem_euclid(26) as u8));", "&{n}"),
+    cc(
+        "tuple",
+        true,
+        "tuple_array_fnptr",
+        "(i64, Vec<u8>)",
+        "let mut {n}: (i64, Vec<u8>) = ({p}, vec![]);",
+        "{n}.0 = {n}.0.wrapping_mul(7).wrapping_add({e});\n{n}.1.push(({e}) as u8);",
+        "&{n}",
+    ),
+    cc("array", true, "tuple_array_fnptr", "[i64; 4]", "let mut {n}: [i64; 4] = [{p}; 4];", "{n}[({e}).rem_euclid(4) as usize] ^= ({e}).wrapping_add(1);\n{n}.rotate_left(1);", "&{n}"),
+    // a fn pointer that is replaced, next to the value it has been applied to so far
+    cc(
+        "fnptr",
+        true,
+        "tuple_array_fnptr",
+        "(fn(i64) -> i64, i64)",
+        "let mut {n}: (fn(i64) -> i64, i64) = (i64::wrapping_neg, {p});",
+        "{n}.1 = ({n}.0)({n}.1).wrapping_mul(3).wrapping_add({e});\n{n}.0 = if ({e}) % 2 == 0 { i64::wrapping_abs } else { i64::wrapping_neg };",
+        "(({n}.0)(5), {n}.1)",
+    ),
+    cc("map", true, "container", MAP, "let mut {n}: std::collections::BTreeMap<i64, Vec<i64>> = Default::default();", "{n}.entry(({e}).rem_euclid(3)).or_default().push({e});", "&{n}"),
+    cc(
+        "slice",
+        true,
+        "unsized",
+        "[i64]",
+        "let mut {n}: Vec<i64> = vec![{p}, 1, 2];",
+        "{n}[({e}).rem_euclid(3) as usize] = ({e}).wrapping_add({n}[0]);\n{n}.swap(0, 2);",
+        "&{n}",
+    ),
+    cc(
+        "str",
+        true,
+        "unsized",
+        "str",
+        "let mut {n}: String = String::from(\"aBcdEfgh\");",
+        "let at = ({e}).rem_euclid(8) as usize;\nif {n}.as_bytes()[at].is_ascii_uppercase() {\n    {n}[at..at + 1].make_ascii_lowercase();\n} else {\n    {n}[at..at + 1].make_ascii_uppercase();\n}",
+        "&{n}",
+    ),
+    cc(
+        "impl_fnmut",
+        true,
+        "impl_trait",
+        "impl FnMut(i64, i64)",
+        "let mut log{p}: Vec<(i64, i64)> = vec![];\nlet mut {n} = |a: i64, b: i64| log{p}.push((a, b));",
+        "{n}(a1, {e});",
+        "&log{p}",
+    ),
+    cc("impl_iter", true, "impl_trait", "impl Iterator<Item = i64>", "let mut {n} = (0i64..).map(|x| x * x + {p});", ITER_USE, "{n}.next()"),
+    cc(
+        "impl_write",
+        true,
+        "impl_trait",
+        "impl std::fmt::Write",
+        "let mut {n}: String = String::new();",
+        "std::fmt::Write::write_fmt({n}, format_args!(\"{},\", ({e}) & 7)).unwrap();",
+        "&{n}",
+    ),
+    cc("dyn_fnmut", true, "dyn_trait", "dyn FnMut(i64)", "let mut log{p}: Vec<i64> = vec![];\nlet mut {n} = |a: i64| log{p}.push(a);", "{n}({e});", "&log{p}"),
+    cc("dyn_iter", true, "dyn_trait", "dyn Iterator<Item = i64>", "let mut {n} = (0i64..).step_by({p} + 2);", ITER_USE, "{n}.next()"),
+    cc(
+        "box_dyn_fnmut",
+        true,
+        "box_dyn",
+        "Box<dyn FnMut(i64) -> i64>",
+        "let mut {n}: Box<dyn FnMut(i64) -> i64> = {\n    let mut total: i64 = {p};\n    Box::new(move |x: i64| {\n        total = total.wrapping_mul(3).wrapping_add(x);\n        total\n    })\n};",
+        "{acc} = {acc}.wrapping_add({n}({e}));",
+        "{n}(0)",
+    ),
+    cc("vec_str", true, "lifetimes", "Vec<&str>", "let mut {n}: Vec<&str> = vec![\"s\"];", "{n}.push(if ({e}) % 2 == 0 { \"ev\" } else { \"odd\" });", "&{n}"),
+    cc("opt_str", true, "lifetimes", "Option<&str>", "let mut {n}: Option<&str> = None;", "*{n} = [None, Some(\"k\"), Some(\"kk\"), Some(\"l\"), {n}.map(|s| &s[..1])][({e}).rem_euclid(5) as usize];", "&{n}"),
+    cc(
+        "rc",
+        true,
+        "not_send_sync",
+        "std::rc::Rc<Vec<i64>>",
+        "let mut {n}: std::rc::Rc<Vec<i64>> = std::rc::Rc::new(vec![{p}]);",
+        "std::rc::Rc::make_mut({n}).push({e});",
+        "&{n}",
+    ),
+    cc(
+        "refcell",
+        true,
+        "not_send_sync",
+        "std::cell::RefCell<Vec<i64>>",
+        "let mut {n}: std::cell::RefCell<Vec<i64>> = std::cell::RefCell::new(vec![{p}]);",
+        "{n}.get_mut().push({e});",
+        "&{n}",
+    ),
+    CClass {
+        setup_hand: "let mut ilog{p}: Vec<i64> = vec![{p}];\nlet mut {n} = |b1: i64| inner_mut(b1, &mut ilog{p});",
+        items: "fn inner_mut(b1: i64, ilog: &mut Vec<i64>) -> i64 {\n    ilog.push(b1);\n    if b1 <= 0 {\n        return 1;\n    }\n    let t = inner_mut(b1 - 1, ilog);\n    ilog.push(t);\n    t.wrapping_mul(3).wrapping_add(b1)\n}\n",
+        ..cc(
+            "lambda",
+            true,
+            "lambda",
+            "impl FnMut(i64) -> i64",
+            "let mut ilog{p}: Vec<i64> = vec![{p}];\nlet mut {n} = rec_lambda!(g, |ilog{p}: &mut Vec<i64>| {\n    |b1: i64| -> i64 {\n        ilog{p}.push(b1);\n        if b1 <= 0 {\n            return 1;\n        }\n        let t = g!(b1 - 1);\n        ilog{p}.push(t);\n        t.wrapping_mul(3).wrapping_add(b1)\n    }\n});",
+            "{acc} = {acc}.wrapping_add({n}(({e}).rem_euclid(4)));",
+            "&ilog{p}",
+        )
+    },
+];
+
+pub fn cclasses(mutable: bool) -> Vec<&'static CClass> {
+    CCLASSES.iter().filter(|c| c.mutable == mutable).collect()
+}
+pub fn cclass(mutable: bool, name: &str) -> &'static CClass {
+    CCLASSES.iter().find(|c| c.mutable == mutable && c.name == name).unwrap_or_else(|| panic!("unknown capture-type class {name}"))
+}
+/// The groups of capture-type classes (for the evidence).
+pub fn cclass_groups() -> Vec<&'static str> {
+    let mut v: Vec<&'static str> = vec![];
+    for c in CCLASSES {
+        if !v.contains(&c.group) {
+            v.push(c.group);
+        }
+    }
+    v
+}
+
+/// How many class vectors per capture pattern the quick tier emits: enough for the 8 patterns that have a given
+/// kind at the last of four positions to go through all classes of that kind.
+pub fn captype_vectors_per_pattern_quick() -> usize {
+    let most = cclasses(false).len().max(cclasses(true).len());
+    (most + 7) / 8
+}
+
+/// The capture-type family (body template 'K'): for every capture pattern with at least one capture, vectors of
+/// capture-type classes.  Thorough: vector j gives capture p class (p + j) of its kind's list, j over the longer
+/// of the lists of the kinds in the pattern — every class of the right kind at every position of every pattern.  Quick: per pattern
+/// `captype_vectors_per_pattern_quick()` vectors; position p takes the classes of its kind round-robin (one
+/// counter per (position, kind) over the whole enumeration), so that every class occurs at every position index
+/// for both kinds.  Argument count, return type and call syntax rotate.
+pub fn enumerate_captyped(thorough: bool) -> Vec<Shape> {
+    let lists = [cclasses(false), cclasses(true)];
+    let mut next = [[0usize; 2]; 4];
+    let mut v = vec![];
+    for (q, caps) in capture_patterns().into_iter().enumerate() {
+        if caps.is_empty() {
+            continue;
+        }
+        // thorough: as many vectors as the longest class list among the kinds that occur in the pattern
+        let per_pattern = if thorough { caps.iter().map(|&m| lists[m as usize].len()).max().unwrap_or(0) } else { captype_vectors_per_pattern_quick() };
+        for j in 0..per_pattern {
+            let captypes: Vec<String> = (0..caps.len())
+                .map(|p| {
+                    let kind = caps[p] as usize;
+                    let list = &lists[kind];
+                    let k = if thorough {
+                        p + j
+                    } else {
+                        next[p][kind] += 1;
+                        next[p][kind] - 1
+                    };
+                    list[k % list.len()].name.to_string()
+                })
+                .collect();
+            let (ret, trailing) = COMBOS[(q + j) % 4];
+            v.push(Shape { caps: caps.clone(), nargs: (q + j) % 4 + 1, ret, trailing, body: 'K', captypes, ..Shape::default() });
+        }
+    }
+    v
+}
+
+/// Execution environments (body template 'X'): where and how the driver calls the closure.
+///   deep          on a thread that was given BIG_STACK bytes of stack, recursing DEEP levels (after a shallow call)
+///   threads_own   four threads at the same time, each with its own captured data and its own closure
+///   threads_shared one closure with shared captures only, called by four threads at the same time through `&`
+///   moved         created and called on one thread, then moved to another thread and called there
+///   nested        every activation of the body creates and calls ANOTHER recursive lambda (over a local of the
+///                 body and the outer lambda's shared captures) between its own recursive calls
+pub const ENVS: [&str; 5] = ["deep", "threads_own", "threads_shared", "moved", "nested"];
+pub const GRID_DEEP: usize = 5;
+pub const GRID_ENV: usize = 6;
+/// Stack of the thread that makes the deep calls, and the recursion depth: the hand-written fn must need well
+/// over 256 MiB and well under BIG_STACK (the engine checks the measured figure).
+pub const BIG_STACK: usize = 1 << 30;
+pub const DEEP: i64 = 1_700_000;
+pub const THREADS: usize = 4;
+
+/// The execution-environment family: a handful of programs, the same in both tiers.
+pub fn enumerate_env(_thorough: bool) -> Vec<Shape> {
+    let mk = |env: &str, caps: &[bool], nargs: usize, ret: bool, trailing: bool| Shape { caps: caps.to_vec(), nargs, ret, trailing, body: 'X', env: env.to_string(), ..Shape::default() };
+    vec![
+        mk("deep", &[], 4, true, false),
+        mk("deep", &[true, false, true], 3, false, true),
+        mk("threads_own", &[false, true], 2, true, false),
+        mk("threads_own", &[true, true, false], 4, false, true),
+        mk("threads_shared", &[false], 1, true, false),
+        mk("threads_shared", &[false, false], 3, true, true),
+        mk("moved", &[true], 1, false, false),
+        mk("moved", &[false, true, false], 2, true, true),
+        mk("nested", &[false, true], 2, true, false),
+        mk("nested", &[true, false, false], 3, false, true),
+    ]
+}
+
 pub fn grid(thorough: bool, nargs: usize) -> Vec<Tuple> {
     if nargs == 0 {
         // template E: only the first component is used
         let a1: Vec<i64> = if thorough { vec![0, 1, 2, 3, 5, 6] } else { vec![0, 3, 6] };
         return a1.into_iter().map(|x| (x, 0, 0, false)).collect();
+    }
+    if nargs == GRID_DEEP {
+        // a shallow tuple and the deep one
+        return vec![(1500, -3, 9, true), (DEEP, 2, 0, false)];
+    }
+    if nargs == GRID_ENV {
+        return vec![(3, -3, 9, true), (40, 2, 0, false), (700, 2, 9, true)];
     }
     let a1: Vec<i64> = if thorough { (0..=7).collect() } else { vec![0, 1, 2, 3, 4, 6] };
     let a2: Vec<i64> = if thorough { vec![-3, 0, 2] } else { vec![-3, 2] };
@@ -639,7 +1035,7 @@ pub fn grid(thorough: bool, nargs: usize) -> Vec<Tuple> {
 
 pub fn tuple_text(t: &Tuple, nargs: usize) -> String {
     let all = [t.0.to_string(), t.1.to_string(), t.2.to_string(), t.3.to_string()];
-    format!("({})", all[..nargs.max(1)].join(","))
+    format!("({})", all[..nargs.clamp(1, 4)].join(","))
 }
 
 /// Argument expressions of the recursive-call sites (truncated to the shape's argument count).  The first
@@ -722,7 +1118,15 @@ impl<'a> BodyGen<'a> {
                 continue;
             }
             let n = self.sh.cap_name(p);
-            if self.sh.cap_is_vec(p) {
+            if self.sh.body == 'K' {
+                // the class of the declared type says how the capture is changed
+                for line in subst(self.sh.cclass(p).uses, &n, p, e).lines() {
+                    s += &format!("{ind}{line}\n");
+                }
+            } else if self.sh.body == 'X' && self.sh.cap_is_vec(p) {
+                // a log that stays short over millions of activations: near the leaves and every 65536 levels
+                s += &format!("{ind}if a1 < 8 || a1 & 0xFFFF == 0 {{\n{ind}    {n}.push(({e}).wrapping_add({p}));\n{ind}}}\n");
+            } else if self.sh.cap_is_vec(p) {
                 s += &format!("{ind}{n}.push(({e}).wrapping_add({p}));\n");
             } else {
                 s += &format!("{ind}*{n} = {n}.wrapping_mul(5).wrapping_add({e}).wrapping_add({p});\n");
@@ -746,6 +1150,10 @@ impl<'a> BodyGen<'a> {
     /// key from all arguments, acc from key and every shared capture.
     fn prologue(&self, ind: &str) -> String {
         let mut s = format!("{ind}super::tick();\n");
+        if self.sh.env == "deep" {
+            // records how far apart on the stack the activations of a run are
+            s += &format!("{ind}super::probe();\n");
+        }
         let expected = self.sh.body == 'E';
         if expected {
             // how many activations are below this one (0 = called by the driver); `_level` counts down on drop
@@ -781,7 +1189,9 @@ impl<'a> BodyGen<'a> {
                 continue;
             }
             let n = self.sh.cap_name(p);
-            if self.sh.cap_is_vec(p) {
+            if self.sh.body == 'K' {
+                s += &format!("{ind}{acc} = {acc}.wrapping_mul(3).wrapping_add({});\n", subst(self.sh.cclass(p).uses, &n, p, "key"));
+            } else if self.sh.cap_is_vec(p) {
                 s += &format!("{ind}{acc} = {acc}.wrapping_mul(3).wrapping_add({n}[{index}.rem_euclid({n}.len() as i64) as usize]);\n");
             } else {
                 s += &format!("{ind}{acc} = {acc}.wrapping_mul(3).wrapping_add(*{n});\n");
@@ -857,7 +1267,8 @@ impl<'a> BodyGen<'a> {
         let r = self.sh.ret;
         let mut s = self.prologue(&i1);
         match self.sh.body {
-            'A' => {
+            // K: the body of A over captures of the declared types in `captypes`
+            'A' | 'K' => {
                 s += &self.mutate("acc", &i1);
                 s += &format!("{i1}if a1 <= 0 {{\n{i2}{}\n{i1}}}\n", self.ret("acc"));
                 s += &format!("{i1}if a1 % 2 == 0 {{\n");
@@ -1066,10 +1477,88 @@ impl<'a> BodyGen<'a> {
                     s += &self.mutate("key ^ 2", &i1);
                 }
             }
+            'X' => {
+                // a path: one recursive call per activation, so that the depth is the first argument
+                s += &self.mutate("acc", &i1);
+                s += &format!("{i1}if a1 <= 0 {{\n{i2}{}\n{i1}}}\n", self.ret("acc"));
+                if self.sh.env == "nested" {
+                    s += &self.nested_lambda(&i1);
+                }
+                let deep = self.sh.env == "deep";
+                if deep {
+                    // a small buffer that lives across the recursive call, as a dfs keeps one: frames of 150-250 bytes
+                    s += &format!("{i1}let pad: [i64; 16] = [key; 16];\n");
+                }
+                if r {
+                    s += &format!("{i1}let x = {};\n", self.call(0));
+                    if deep {
+                        s += &format!("{i1}acc ^= pad[(x & 15) as usize];\n");
+                    }
+                    s += &self.mutate("x", &i1);
+                    s += &format!("{i1}x.wrapping_mul(3).wrapping_add(acc)\n");
+                } else {
+                    s += &format!("{i1}{};\n", self.call(0));
+                    if deep {
+                        s += &format!("{i1}acc ^= pad[(acc & 15) as usize];\n");
+                    }
+                    s += &self.mutate("key ^ 1 ^ acc", &i1);
+                }
+            }
             other => panic!("unknown body template {other}"),
         }
         s
     }
+    /// Environment `nested`: statements of the outer body that create ANOTHER recursive lambda - over a local of
+    /// this activation (mutable) and the outer lambda's shared captures - call it and fold what it did into `acc`.
+    /// The hand-written version calls the fn `hand_inner` (see `nested_hand_fn`) with the same things.
+    fn nested_lambda(&self, ind: &str) -> String {
+        let shared: Vec<usize> = (0..self.sh.caps.len()).filter(|&p| !self.sh.caps[p]).collect();
+        let mut s = format!("{ind}let mut ilog: Vec<i64> = vec![];\n");
+        match self.hand {
+            None => {
+                let mut caps = vec!["ilog: &mut Vec<i64>".to_string()];
+                caps.extend(shared.iter().map(|&p| format!("{}: &{}", self.sh.cap_name(p), self.sh.cap_type(p))));
+                s += &format!("{ind}let t = {{\n{ind}    let mut inner = rec_lambda!(g, |{}| {{\n{ind}        |b1: i64| -> i64 {{\n", caps.join(", "));
+                s += &nested_inner_body(self.sh, "g!(b1 - 1)", &format!("{ind}            "));
+                s += &format!("{ind}        }}\n{ind}    }});\n{ind}    inner(a1.rem_euclid(4))\n{ind}}};\n");
+            }
+            Some(_) => {
+                let mut args = vec!["a1.rem_euclid(4)".to_string(), "&mut ilog".to_string()];
+                args.extend(shared.iter().map(|&p| format!("&{}", self.sh.cap_name(p))));
+                s += &format!("{ind}let t = hand_inner({});\n", args.join(", "));
+            }
+        }
+        s += &format!("{ind}acc = acc.wrapping_add(t).wrapping_add(ilog.iter().fold(0i64, |h, v| h.wrapping_mul(31).wrapping_add(*v)));\n");
+        s
+    }
+}
+
+/// Body of the inner lambda of environment `nested` (`rec` = the spelling of its recursive call).
+fn nested_inner_body(sh: &Shape, rec: &str, ind: &str) -> String {
+    let mut base = "1i64".to_string();
+    for p in (0..sh.caps.len()).filter(|&p| !sh.caps[p]) {
+        let n = sh.cap_name(p);
+        base += &if sh.cap_is_vec(p) { format!(".wrapping_add({n}[0])") } else { format!(".wrapping_add(*{n})") };
+    }
+    format!("{ind}ilog.push(b1);\n{ind}if b1 <= 0 {{\n{ind}    return {base};\n{ind}}}\n{ind}let t = {rec};\n{ind}ilog.push(t ^ b1);\n{ind}t.wrapping_mul(3).wrapping_add(b1)\n")
+}
+
+/// The hand-written counterpart of the inner lambda of environment `nested`.
+fn nested_hand_fn(sh: &Shape, ind: &str) -> String {
+    let shared: Vec<usize> = (0..sh.caps.len()).filter(|&p| !sh.caps[p]).collect();
+    let mut params = vec!["b1: i64".to_string(), "ilog: &mut Vec<i64>".to_string()];
+    params.extend(shared.iter().map(|&p| format!("{}: &{}", sh.cap_name(p), sh.cap_type(p))));
+    let mut args = vec!["b1 - 1".to_string(), "ilog".to_string()];
+    args.extend(shared.iter().map(|&p| sh.cap_name(p)));
+    let mut s = format!("{ind}fn hand_inner({}) -> i64 {{\n", params.join(", "));
+    s += &nested_inner_body(sh, &format!("hand_inner({})", args.join(", ")), &format!("{ind}    "));
+    s += &format!("{ind}}}\n");
+    s
+}
+
+/// A text of a capture-type class with its placeholders filled in.
+fn subst(text: &str, n: &str, p: usize, e: &str) -> String {
+    text.replace("{n}", n).replace("{p}", &p.to_string()).replace("{acc}", "acc").replace("{e}", e)
 }
 
 /// The `rec_lambda!(…)` invocation of a shape, as source text (an expression).
@@ -1244,6 +1733,114 @@ fn typed_calls(sh: &Shape, call: &dyn Fn(&[String]) -> String, dind: &str, ind: 
     TypedDriver { data: decl, calls: s, show }
 }
 
+/// Every line of `text` behind `ind`.
+fn indent(text: &str, ind: &str) -> String {
+    text.lines().map(|l| if l.is_empty() { "\n".to_string() } else { format!("{ind}{l}\n") }).collect()
+}
+
+/// `let mut lam = |arguments| hand(arguments, captures);` - the closure that the macro stands for, written out.
+fn control_lam(sh: &Shape) -> String {
+    let names = sh.names();
+    let ps: Vec<String> = (0..sh.nargs).map(|i| format!("{}: {}", names.args[i], sh.arg_type(i))).collect();
+    let mut all: Vec<String> = names.args.clone();
+    for p in 0..sh.caps.len() {
+        all.push(format!("{}{}", if sh.caps[p] { "&mut " } else { "&" }, sh.cap_name(p)));
+    }
+    format!("            let mut {} = |{}| hand({});\n", names.binding, ps.join(", "), all.join(", "))
+}
+
+/// The two drivers of an execution-environment shape (body template 'X'): the same text, once around the
+/// rec_lambda closure (`lam`) and once around the closure written out over the hand-written fn (`control`).
+fn env_drivers(sh: &Shape, lam: &str, control: &str, decl_at: &dyn Fn(&mut String, bool, &str), cap_shows: &[String]) -> String {
+    let n = sh.nargs;
+    let rest: Vec<String> = (2..=n).map(|i| format!("a{i}")).collect();
+    // the argument lists of the two calls, `first` being the first argument
+    let args = |first: &str| {
+        let mut v = vec![first.to_string()];
+        v.extend(rest.iter().cloned());
+        v.join(", ")
+    };
+    let show = |first: &str| {
+        let mut parts = vec![first.to_string()];
+        parts.extend(cap_shows.iter().cloned());
+        format!("format!(\"{{:?}}\", {})", tuple(&parts))
+    };
+    // closure creation re-indented to `ind` (it is generated for 12 spaces)
+    let lam_at = |text: &str, ind: &str| -> String { text.lines().map(|l| format!("{ind}{}\n", l.strip_prefix("            ").unwrap_or(l))).collect() };
+    let mut s = String::new();
+    for (name, text, hand) in [("run_macro", lam, false), ("run_hand", control, true)] {
+        s += &format!("\n    pub fn {name}(a1: i64, a2: i64, a3: u32, a4: bool) -> String {{\n");
+        match sh.env.as_str() {
+            "deep" => {
+                // the caller arranges a big stack for its deep recursion; a shallow call first
+                s += "        let big = std::thread::Builder::new().stack_size(super::BIG_STACK).spawn(move || {\n";
+                decl_at(&mut s, hand, "            ");
+                s += "            let (r1, r2) = {\n";
+                s += &lam_at(text, "                ");
+                s += &format!("                let r1 = lam({});\n                let r2 = lam({});\n                (r1, r2)\n            }};\n", args("a1.min(64)"), args("a1"));
+                s += &format!("            {}\n", show("(r1, r2)"));
+                s += "        });\n";
+                s += "        big.unwrap().join().unwrap_or_else(|_| \"PANIC\".to_string())\n";
+            }
+            "threads_own" => {
+                s += &format!("        let barrier = std::sync::Barrier::new({THREADS});\n");
+                s += "        let outs: Vec<String> = std::thread::scope(|sc| {\n";
+                s += &format!("            let hs: Vec<_> = (0..{THREADS}i64)\n                .map(|t| {{\n                    let barrier = &barrier;\n                    sc.spawn(move || {{\n");
+                decl_at(&mut s, hand, "                        ");
+                s += "                        barrier.wait();\n";
+                s += "                        let (r1, r2) = {\n";
+                s += &lam_at(text, "                            ");
+                s += &format!(
+                    "                            let r1 = lam({});\n                            let r2 = lam({});\n                            (r1, r2)\n                        }};\n",
+                    args("a1 + 16 * t"),
+                    args("a1 - 1 + 16 * t")
+                );
+                s += &format!("                        {}\n", show("(r1, r2)"));
+                s += "                    })\n                })\n                .collect();\n";
+                s += "            hs.into_iter().map(|h| h.join().unwrap_or_else(|_| \"PANIC\".to_string())).collect()\n";
+                s += "        });\n";
+                s += "        outs.join(\" | \")\n";
+            }
+            "threads_shared" => {
+                decl_at(&mut s, hand, "        ");
+                s += "        let outs: Vec<String> = {\n";
+                s += &lam_at(text, "            ");
+                s += "            let lam = &lam;\n";
+                s += &format!("            let barrier = std::sync::Barrier::new({THREADS});\n");
+                s += "            std::thread::scope(|sc| {\n";
+                s += &format!("                let hs: Vec<_> = (0..{THREADS}i64)\n                    .map(|t| {{\n                        let barrier = &barrier;\n                        sc.spawn(move || {{\n");
+                s += "                            barrier.wait();\n";
+                s += &format!("                            let r1 = lam({});\n                            let r2 = lam({});\n", args("a1 + 16 * t"), args("a1 - 1 + 16 * t"));
+                s += "                            format!(\"{:?}\", (r1, r2))\n";
+                s += "                        })\n                    })\n                    .collect();\n";
+                s += "                hs.into_iter().map(|h| h.join().unwrap_or_else(|_| \"PANIC\".to_string())).collect()\n";
+                s += "            })\n        };\n";
+                s += &format!("        {}\n", show("outs"));
+            }
+            "moved" => {
+                decl_at(&mut s, hand, "        ");
+                s += "        let (r1, r2) = {\n";
+                s += &lam_at(text, "            ");
+                s += &format!("            let r1 = lam({});\n", args("a1.min(64)"));
+                s += "            // the closure goes to another thread and is called there; None = it panicked there\n";
+                s += &format!("            let r2 = std::thread::scope(|sc| {{\n                sc.spawn(move || {{\n                    let mut lam = lam;\n                    lam({})\n                }})\n                .join()\n            }});\n", args("a1"));
+                s += "            (r1, r2.ok())\n        };\n";
+                s += &format!("        {}\n", show("(r1, r2)"));
+            }
+            "nested" => {
+                decl_at(&mut s, hand, "        ");
+                s += "        let (r1, r2) = {\n";
+                s += &lam_at(text, "            ");
+                s += &format!("            let r1 = lam({});\n            let r2 = lam({});\n            (r1, r2)\n        }};\n", args("a1.min(64)"), args("a1"));
+                s += &format!("        {}\n", show("(r1, r2)"));
+            }
+            other => panic!("unknown execution environment {other}"),
+        }
+        s += "    }\n";
+    }
+    s
+}
+
 fn shape_module(id: usize, sh: &Shape, with_macro: bool) -> String {
     let n = sh.nargs;
     let names = sh.names();
@@ -1253,11 +1850,30 @@ fn shape_module(id: usize, sh: &Shape, with_macro: bool) -> String {
         s += "    use std::cmp::max;\n";
     }
     s += "\n";
+    // items the hand-written version needs besides `hand`: the fn behind a captured lambda, the inner fn of `nested`
+    let mut items: Vec<&str> = vec![];
+    for p in 0..sh.captypes.len() {
+        let c = sh.cclass(p);
+        if !c.items.is_empty() && !items.contains(&c.items) {
+            items.push(c.items);
+            s += &indent(c.items, "    ");
+        }
+    }
+    if sh.env == "nested" {
+        s += &nested_hand_fn(sh, "    ");
+    }
     s += &hand_fn(sh, "hand", "    ");
-    let decl = |s: &mut String| {
+    // `hand` = for the hand-written version (a captured lambda is a closure around a fn there)
+    let decl_at = |s: &mut String, hand: bool, ind: &str| {
         for p in 0..sh.caps.len() {
+            if sh.body == 'K' {
+                let c = sh.cclass(p);
+                let text = if (hand || !with_macro) && !c.setup_hand.is_empty() { c.setup_hand } else { c.setup };
+                *s += &indent(&subst(text, &sh.cap_name(p), p, ""), ind);
+                continue;
+            }
             *s += &format!(
-                "        let {}{}: {} = {};\n",
+                "{ind}let {}{}: {} = {};\n",
                 if sh.caps[p] { "mut " } else { "" },
                 sh.cap_name(p),
                 sh.cap_type(p),
@@ -1265,17 +1881,13 @@ fn shape_module(id: usize, sh: &Shape, with_macro: bool) -> String {
             );
         }
     };
+    let decl = |s: &mut String, hand: bool| decl_at(s, hand, "        ");
     let lam = if with_macro {
         format!("            let mut {lam_name} = {};\n", macro_invocation(sh, "            "))
     } else {
         // control variant (used only to tell a generator defect from a macro defect): an ordinary closure
         // around the hand-written function, no macro involved
-        let ps: Vec<String> = (0..n).map(|i| format!("{}: {}", names.args[i], sh.arg_type(i))).collect();
-        let mut all: Vec<String> = names.args.clone();
-        for p in 0..sh.caps.len() {
-            all.push(format!("{}{}", if sh.caps[p] { "&mut " } else { "&" }, sh.cap_name(p)));
-        }
-        format!("            let mut {lam_name} = |{}| hand({});\n", ps.join(", "), all.join(", "))
+        control_lam(sh)
     };
     let caps_pass: Vec<String> = (0..sh.caps.len()).map(|p| format!("{}{}", if sh.caps[p] { "&mut " } else { "&" }, sh.cap_name(p))).collect();
     let with = |a: &[String]| {
@@ -1292,7 +1904,7 @@ fn shape_module(id: usize, sh: &Shape, with_macro: bool) -> String {
             let call: &dyn Fn(&[String]) -> String = if is_lam { &call_lam } else { &call_hand };
             let TypedDriver { data, calls, show } = typed_calls(sh, call, "        ", "            ");
             s += &format!("\n    pub fn {name}(a1: i64, a2: i64, a3: u32, a4: bool) -> String {{\n");
-            decl(&mut s);
+            decl(&mut s, !is_lam);
             s += &data;
             s += "        let (r1, r2, after2, r3, t3, r4) = {\n";
             if is_lam {
@@ -1306,11 +1918,25 @@ fn shape_module(id: usize, sh: &Shape, with_macro: bool) -> String {
         return s;
     }
 
+    // what the captures hold after the last call
+    let cap_shows: Vec<String> = (0..sh.caps.len())
+        .filter_map(|p| {
+            if sh.body == 'K' {
+                let c = sh.cclass(p);
+                (!c.show.is_empty()).then(|| subst(c.show, &sh.cap_name(p), p, ""))
+            } else {
+                Some(format!("&{}", sh.cap_name(p)))
+            }
+        })
+        .collect();
+    if sh.body == 'X' {
+        s += &env_drivers(sh, &lam, &control_lam(sh), &decl_at, &cap_shows);
+        s += "}\n\n";
+        return s;
+    }
     let show = {
         let mut parts = vec!["r1".to_string(), "r2".to_string()];
-        for p in 0..sh.caps.len() {
-            parts.push(format!("&{}", sh.cap_name(p)));
-        }
+        parts.extend(cap_shows.iter().cloned());
         format!("        format!(\"{{:?}}\", ({}))\n", parts.join(", "))
     };
     let mut first: Vec<String> = (1..=n).map(|i| format!("a{i}")).collect();
@@ -1325,7 +1951,7 @@ fn shape_module(id: usize, sh: &Shape, with_macro: bool) -> String {
 
     // (a) the macro version: the closure is created once and called twice
     s += "\n    pub fn run_macro(a1: i64, a2: i64, a3: u32, a4: bool) -> String {\n";
-    decl(&mut s);
+    decl(&mut s, false);
     s += "        let (r1, r2) = {\n";
     s += &lam;
     s += &format!("            let r1 = {};\n            let r2 = {};\n            (r1, r2)\n        }};\n", call_lam(&first), call_lam(&second));
@@ -1334,7 +1960,7 @@ fn shape_module(id: usize, sh: &Shape, with_macro: bool) -> String {
 
     // (b) the hand-written version
     s += "\n    pub fn run_hand(a1: i64, a2: i64, a3: u32, a4: bool) -> String {\n";
-    decl(&mut s);
+    decl(&mut s, true);
     s += &format!("        let r1 = {};\n        let r2 = {};\n", call_hand(&first), call_hand(&second));
     s += &show;
     s += "    }\n}\n\n";
@@ -1358,8 +1984,12 @@ pub fn lib_source(shapes: &[(usize, Shape)], with_macro: bool) -> (String, Vec<(
     s += "pub fn tick() {\n    CALLS.fetch_add(1, Ordering::Relaxed);\n}\n";
     s += "static EARLY: AtomicU64 = AtomicU64::new(0);\n";
     s += "pub fn early() {\n    EARLY.fetch_add(1, Ordering::Relaxed);\n}\n";
-    s += "/// (body executions, activations left through an explicit `return`) so far\n";
-    s += "pub fn counters() -> (u64, u64) {\n    (CALLS.load(Ordering::Relaxed), EARLY.load(Ordering::Relaxed))\n}\n";
+    s += "/// Lowest and highest address of a local of `probe` so far: how much stack the probed activations span.\n";
+    s += "static LOW: AtomicU64 = AtomicU64::new(u64::MAX);\nstatic HIGH: AtomicU64 = AtomicU64::new(0);\n";
+    s += "#[inline(never)]\npub fn probe() {\n    let here = 0u8;\n    let at = std::hint::black_box(&here) as *const u8 as u64;\n    LOW.fetch_min(at, Ordering::Relaxed);\n    HIGH.fetch_max(at, Ordering::Relaxed);\n}\n";
+    s += "/// (body executions, activations left through an explicit `return`, bytes of stack between the probes) so far\n";
+    s += "pub fn counters() -> (u64, u64, u64) {\n    (CALLS.load(Ordering::Relaxed), EARLY.load(Ordering::Relaxed), HIGH.load(Ordering::Relaxed).saturating_sub(LOW.load(Ordering::Relaxed)))\n}\n";
+    s += &format!("/// Stack that the caller of a deep recursion arranges for itself.\npub const BIG_STACK: usize = {BIG_STACK};\n");
     s += "static LEVEL: AtomicU64 = AtomicU64::new(0);\n";
     s += "/// One per activation of a body of template E; gives the level back when it is dropped (return, unwinding).\n";
     s += "pub struct Level;\n";
@@ -1375,9 +2005,10 @@ pub fn lib_source(shapes: &[(usize, Shape)], with_macro: bool) -> (String, Vec<(
         line += n;
         s += &m;
     }
-    s += "pub static SHAPES: &[(u64, usize, Runner, Runner)] = &[\n";
+    s += "/// (id, grid, every call in a child process of its own, macro version, hand-written version)\n";
+    s += "pub static SHAPES: &[(u64, usize, bool, Runner, Runner)] = &[\n";
     for (id, sh) in shapes {
-        s += &format!("    ({id}, {}, shape_{id}::run_macro, shape_{id}::run_hand),\n", sh.grid_arity());
+        s += &format!("    ({id}, {}, {}, shape_{id}::run_macro, shape_{id}::run_hand),\n", sh.grid_arity(), sh.isolated());
     }
     s += "];\n";
     (s, lines)
@@ -1393,10 +2024,14 @@ pub fn lib_file(shapes: &[(usize, Shape)], with_macro: bool) -> (String, Vec<(us
 
 /// The driver: prints one JSON line per shape with id >= argv[1] (default 0), in the order of the ids.
 /// `parts` = paths of the crates / modules that hold the shapes.
+/// Shapes marked `isolated` (the execution-environment family) are not run in this process: for every driver
+/// tuple the driver starts ITSELF again as a child process (`--one <id> <hand|macro> <tuple index>`), first for
+/// the hand-written version, then for the macro version, and takes the child's output as the result; a child that
+/// is killed (stack overflow: SIGABRT / SIGSEGV) gives the result `DIED(..)`.
 pub fn main_source(parts: &[String], thorough: bool) -> String {
     let mut s = String::new();
-    s += "type Tuple = (i64, i64, u32, bool);\ntype Runner = fn(i64, i64, u32, bool) -> String;\ntype Counters = fn() -> (u64, u64);\n\n";
-    for nargs in 0..=4 {
+    s += "type Tuple = (i64, i64, u32, bool);\ntype Runner = fn(i64, i64, u32, bool) -> String;\ntype Counters = fn() -> (u64, u64, u64);\n\n";
+    for nargs in 0..=GRID_ENV {
         let g = grid(thorough, nargs);
         s += &format!("static GRID_{nargs}: &[Tuple] = &[\n");
         for t in &g {
@@ -1404,22 +2039,56 @@ pub fn main_source(parts: &[String], thorough: bool) -> String {
         }
         s += "];\n";
     }
-    s += "\nfn shapes() -> Vec<(u64, usize, Runner, Runner, Counters)> {\n    let mut v: Vec<(u64, usize, Runner, Runner, Counters)> = vec![];\n";
+    s += &format!("static GRIDS: [&[Tuple]; {}] = [{}];\n", GRID_ENV + 1, (0..=GRID_ENV).map(|n| format!("GRID_{n}")).collect::<Vec<_>>().join(", "));
+    s += "\nfn shapes() -> Vec<(u64, usize, bool, Runner, Runner, Counters)> {\n    let mut v: Vec<(u64, usize, bool, Runner, Runner, Counters)> = vec![];\n";
     for p in parts {
-        s += &format!("    v.extend({p}::SHAPES.iter().map(|&(id, n, m, h)| (id, n, m, h, {p}::counters as Counters)));\n");
+        s += &format!("    v.extend({p}::SHAPES.iter().map(|&(id, n, iso, m, h)| (id, n, iso, m, h, {p}::counters as Counters)));\n");
     }
     s += "    v.sort_by_key(|e| e.0);\n    v\n}\n\n";
-    s += r#"fn run_all(f: Runner, grid: &[Tuple], counters: Counters) -> (Vec<String>, u64, u64) {
-    let (calls, early) = counters();
-    let mut out = vec![];
-    for &(a1, a2, a3, a4) in grid {
-        out.push(match std::panic::catch_unwind(move || f(a1, a2, a3, a4)) {
-            Ok(s) => s,
-            Err(_) => "PANIC".to_string(),
-        });
+    s += r#"fn run_one(f: Runner, t: Tuple) -> String {
+    let (a1, a2, a3, a4) = t;
+    match std::panic::catch_unwind(move || f(a1, a2, a3, a4)) {
+        Ok(s) => s,
+        Err(_) => "PANIC".to_string(),
     }
+}
+
+/// (results, body executions, early returns, largest stack span of one run)
+fn run_all(f: Runner, grid: &[Tuple], counters: Counters) -> (Vec<String>, u64, u64, u64) {
+    let (calls, early, _) = counters();
+    let out = grid.iter().map(|&t| run_one(f, t)).collect();
     let after = counters();
-    (out, after.0 - calls, after.1 - early)
+    (out, after.0 - calls, after.1 - early, after.2)
+}
+
+/// The same with a child process per tuple.
+fn run_all_isolated(id: u64, which: &str, grid: &[Tuple]) -> (Vec<String>, u64, u64, u64) {
+    let exe = std::env::current_exe().expect("current_exe");
+    let (mut out, mut calls, mut early, mut span) = (vec![], 0, 0, 0);
+    for k in 0..grid.len() {
+        let child = std::process::Command::new(&exe)
+            .args(["--one", &id.to_string(), which, &k.to_string()])
+            .stdin(std::process::Stdio::null())
+            .stderr(std::process::Stdio::null())
+            .output()
+            .expect("cannot start a child process");
+        let text = String::from_utf8_lossy(&child.stdout).to_string();
+        if !child.status.success() {
+            use std::os::unix::process::ExitStatusExt;
+            out.push(match child.status.signal() {
+                Some(sig) => format!("DIED(signal {sig})"),
+                None => format!("DIED(exit code {:?})", child.status.code()),
+            });
+            continue;
+        }
+        let (head, result) = text.split_once('\n').expect("child output");
+        let c: Vec<u64> = head.split(' ').map(|x| x.parse().expect("child counters")).collect();
+        calls += c[0];
+        early += c[1];
+        span = span.max(c[2]);
+        out.push(result.to_string());
+    }
+    (out, calls, early, span)
 }
 
 fn quote(v: &[String]) -> String {
@@ -1430,31 +2099,44 @@ fn quote(v: &[String]) -> String {
 
 fn main() {
     std::panic::set_hook(Box::new(|_| {}));
-    let from: u64 = std::env::args().nth(1).and_then(|s| s.parse().ok()).unwrap_or(0);
-    for (id, nargs, m, h, counters) in shapes() {
+    let argv: Vec<String> = std::env::args().collect();
+    if argv.get(1).map(|a| a.as_str()) == Some("--one") {
+        // child: one version of one shape on one tuple; "<calls> <early> <span>" and the result
+        let id: u64 = argv[2].parse().expect("id");
+        let k: usize = argv[4].parse().expect("tuple index");
+        let (_, nargs, _, m, h, counters) = shapes().into_iter().find(|e| e.0 == id).expect("no such shape");
+        let r = run_one(if argv[3] == "macro" { m } else { h }, GRIDS[nargs][k]);
+        let (calls, early, span) = counters();
+        print!("{calls} {early} {span}\n{r}");
+        return;
+    }
+    let from: u64 = argv.get(1).and_then(|s| s.parse().ok()).unwrap_or(0);
+    for (id, nargs, isolated, m, h, counters) in shapes() {
         if id < from {
             continue;
         }
-        let grid = match nargs {
-            0 => GRID_0,
-            1 => GRID_1,
-            2 => GRID_2,
-            3 => GRID_3,
-            _ => GRID_4,
-        };
+        let grid = GRIDS[nargs];
         // announce before running, so that a crash (stack overflow) is attributable to a shape
         println!("{{\"begin\":{}}}", id);
-        let (rm, cm, em) = run_all(m, grid, counters);
-        let (rh, ch, eh) = run_all(h, grid, counters);
+        // the hand-written version first: whether IT gets through is known before the macro version is tried
+        let ((rh, ch, eh, sh), (rm, cm, em, sm)) = if isolated {
+            let hand = run_all_isolated(id, "hand", grid);
+            (hand, run_all_isolated(id, "macro", grid))
+        } else {
+            let mac = run_all(m, grid, counters);
+            (run_all(h, grid, counters), mac)
+        };
         println!(
-            "{{\"id\":{},\"macro\":{},\"hand\":{},\"calls_macro\":{},\"calls_hand\":{},\"early_macro\":{},\"early_hand\":{}}}",
+            "{{\"id\":{},\"macro\":{},\"hand\":{},\"calls_macro\":{},\"calls_hand\":{},\"early_macro\":{},\"early_hand\":{},\"span_macro\":{},\"span_hand\":{}}}",
             id,
             quote(&rm),
             quote(&rh),
             cm,
             ch,
             em,
-            eh
+            eh,
+            sm,
+            sh
         );
     }
     println!("{{\"done\":true}}");
